@@ -312,9 +312,14 @@ impl ParallelCacheState {
         let (transition, changed_slots) = {
             // If it is marked as selfdestructed inside revm
             // we need to changed state to destroyed.
+            // Ordering contract with `ParallelStateView::db_storage`: the account status is updated
+            // before the cached storage is removed. A concurrent reader that fetched a slot from the
+            // database re-checks the status under the storage-shard guard, so it either sees the new
+            // status (and caches zero) or inserts before the removal below wipes its stale value.
             if is_destructed {
+                let transition = self.get_account_mut(address).selfdestruct();
                 self.storage.remove(&address);
-                return self.get_account_mut(address).selfdestruct();
+                return transition;
             }
 
             // Note: it can happen that created contract get selfdestructed in same block
@@ -327,9 +332,9 @@ impl ParallelCacheState {
             // is not possible because CREATE2 is introduced later.
             if is_created {
                 let info = account.info;
-                self.storage.remove(&address);
                 let (transition, changed_slots) =
                     self.get_account_mut(address).newly_created(info.clone(), changed_storage);
+                self.storage.remove(&address);
                 self.contracts.entry(info.code_hash).or_insert_with(|| info.code.clone().unwrap());
                 (Some(transition), Some(changed_slots))
             }
@@ -341,9 +346,10 @@ impl ParallelCacheState {
             // pre-existing empty accounts are unmarked as touched. Therefore, an account that
             // reaches the commit layer as touched, empty, and not created must be cleared.
             else if is_empty {
-                self.storage.remove(&address);
                 drop(changed_storage);
-                (self.get_account_mut(address).touch_empty_eip161(), None)
+                let transition = self.get_account_mut(address).touch_empty_eip161();
+                self.storage.remove(&address);
+                (transition, None)
             } else {
                 let (transition, changed_slots) =
                     self.get_account_mut(address).change(account.info, changed_storage);
@@ -565,27 +571,44 @@ impl<'a, DB: DatabaseRef> ParallelStateView<'a, DB> {
         }
         // As in revm State::storage_ref, the account is not guaranteed to be cached. In that case,
         // the backing database remains the source of truth.
-        let is_storage_known =
-            self.cache.accounts.get(&address).is_some_and(|account| {
-                account.status.is_storage_known() || account.account.is_none()
-            });
+        let is_storage_known = self.is_storage_known(address);
 
         let value = if is_storage_known {
             U256::ZERO
         } else {
             self.with_metrics(|| self.database.storage_ref(address, index))?
         };
+        // The database fetch above may have straddled a commit that destroyed, re-created or
+        // cleared this account. Commit updates the account status before it removes the cached
+        // storage, and the removal needs this shard's write lock: re-evaluating "storage known"
+        // while holding the storage-shard guard therefore never caches a pre-commit value that
+        // survives the removal. Lock order: storage shard, then account shard (readers only).
+        let recheck = |value: U256| {
+            if !is_storage_known && self.is_storage_known(address) { U256::ZERO } else { value }
+        };
         let value = if let Some(slots) = self.cache.storage.get(&address) {
+            let value = recheck(value);
             *slots.entry(index).or_insert(value).value()
         } else {
             match self.cache.storage.entry(address) {
-                Entry::Occupied(entry) => *entry.get().entry(index).or_insert(value).value(),
+                Entry::Occupied(entry) => {
+                    let value = recheck(value);
+                    *entry.get().entry(index).or_insert(value).value()
+                }
                 Entry::Vacant(entry) => {
-                    *entry.insert(Default::default()).entry(index).or_insert(value).value()
+                    let slots = entry.insert(Default::default());
+                    let value = recheck(value);
+                    *slots.entry(index).or_insert(value).value()
                 }
             }
         };
         Ok(value)
+    }
+
+    fn is_storage_known(self, address: Address) -> bool {
+        self.cache.accounts.get(&address).is_some_and(|account| {
+            account.status.is_storage_known() || account.account.is_none()
+        })
     }
 
     fn db_block_hash(self, number: u64) -> Result<B256, DB::Error> {
